@@ -49,7 +49,7 @@ FORMS = ["flat", "list", "nested", "dict", "struct", "array"]
 
 
 def budget(tier):
-    return dict(examples=45, seconds=40) if tier == "quick" else dict(examples=700, seconds=440)
+    return dict(examples=45, seconds=40) if tier == "quick" else dict(examples=600, seconds=400)
 
 
 # ------------------------------------------------------------------------------------------------ oracles (python ints)
